@@ -1,5 +1,6 @@
 import copy
 import logging
+import numbers
 from typing import Any, Callable
 
 import array_api_compat.numpy as np
@@ -63,7 +64,8 @@ class SMCSampler(MCMCSampler):
             the first value to the second value over the course of the SMC
             iterations. See `target_efficiency_rate` for details.
         """
-        if isinstance(value, float):
+        if isinstance(value, numbers.Real) or getattr(value, "ndim", 1) == 0:
+            value = float(value)
             if not (0 < value < 1):
                 raise ValueError("target_efficiency must be in (0, 1)")
             self._target_efficiency = value
